@@ -55,6 +55,9 @@ TABLE_SELECTOR_RE = re.compile(
     r"(\[(?P<start_col>[^\]]+)\] *: *)?"
     r"(\[(?P<end_col>.+)\] *)?$")
 
+NUMBER_RE = re.compile(
+    r'^\s*[+-]?(\d+\.?\d*|\.\d+)([eE][+-]?\d+)?\s*$', re.ASCII)
+
 QUESTION_MARK_RE = re.compile(r'\?(?<!~)')
 STAR_RE = re.compile(r'\*(?<!~)')
 
@@ -940,6 +943,9 @@ def uniqueify(seq):
 
 
 def is_number(value):
+    if isinstance(value, str) and not NUMBER_RE.match(value):
+        # python accepts 'nan', 'inf', '1_0', ... which are not excel numbers
+        return False
     try:
         float(value)
         return True
@@ -963,6 +969,9 @@ def coerce_to_number(value, convert_all=False):
     # True and False strings become numbers
     if convert_all and value.upper() in ('TRUE', 'FALSE', EMPTY):
         return int(len(value) == 4)
+
+    if not NUMBER_RE.match(value):
+        return value
 
     try:
         if '.' not in value:
